@@ -1,11 +1,78 @@
-#check @List.mergeSort
-#check @List.sum
-example : Rat := ([1,2,3] : List Rat).sum / (3 : Nat)
-#eval ([1,2,3] : List Rat).sum / ((3 : Nat) : Rat)
-#eval ([3,1,2] : List Rat).mergeSort
-#eval min (1:Rat) 2
-#eval (7 : Int) / 2
-#eval (-7 : Int) / 2
-#check @List.getLast?
-#check @List.zipIdx
-example : ((1:Rat)/3 + 1/3) = 2/3 := by decide
+import Verif.Lemmas.C04
+namespace Verif.C04
+open Verif.Py
+
+theorem to_is_over' (f : List Rat → Rat) (s : Src) (target step st sp : Int) (m : Method) (wh : Option Bool)
+    (ht : targetStep s.timesteps target m = .ok step) (h0 : step ≠ 0)
+    (hst : s.start? = some st) (hsp : s.stop? = some sp) :
+    downTo f s target (some m) wh = over f s (pairs (arange st sp step)) wh := by
+  unfold downTo
+  simp only [ht, hst, hsp, if_neg h0]
+
+theorem cont_span_div (c : Cont) (k : Nat) (hdt : 0 < c.dt) :
+    ((c.stop - c.start) / ((k : Int) * c.dt)).toNat = c.data.length / k ∧
+    ((c.stop - c.start) % ((k : Int) * c.dt) = 0 ↔ c.data.length % k = 0) := by
+  have e : c.stop - c.start = c.dt * (c.data.length : Int) := by unfold Cont.stop; rw [Int.mul_comm]; omega
+  rw [e, Int.mul_comm (k : Int) c.dt, Int.mul_ediv_mul_of_pos _ _ hdt, Int.mul_emod_mul_of_pos _ _ hdt]
+  constructor
+  · have : (c.data.length : Int) / (k : Int) = ((c.data.length / k : Nat) : Int) := by push_cast; rfl
+    rw [this]; exact Int.toNat_natCast _
+  · have : (c.data.length : Int) % (k : Int) = ((c.data.length % k : Nat) : Int) := by push_cast; rfl
+    rw [this]
+    constructor
+    · intro h
+      rcases Int.mul_eq_zero.mp h with h | h
+      · omega
+      · exact_mod_cast h
+    · intro h; rw [h]; simp
+
+theorem to_cont_nonmult (f : List Rat → Rat) (c : Cont) (k : Nat) (m : Method) (hdt : 0 < c.dt) (hk : 0 < k)
+    (hn : k ≤ c.data.length) (hnm : c.data.length % k ≠ 0) :
+    downTo f (.cont c) ((k : Int) * c.dt) (some m) (some true) =
+      .ok ((List.range (c.data.length / k)).map fun (i : Nat) =>
+        (c.start + (i : Int) * ((k : Int) * c.dt) + (((k : Int) - 1) * c.dt) / 2,
+          f ((c.data.drop (i * k)).take k))) := by
+  have hkd : 0 < (k : Int) * c.dt := Int.mul_pos (by omega) hdt
+  obtain ⟨hq, hr⟩ := cont_span_div c k hdt
+  rw [to_is_over' f (.cont c) _ _ c.start c.stop m _ (targetStep_cont c.dt k m hdt hk) (by omega) rfl rfl,
+    pairs_arange_nonmult _ _ _ hkd (fun h => hnm (hr.mp h)), fullWindows, hq]
+  exact over_blocks f c k _ hdt hk (Nat.div_pos hn hk) (Nat.div_mul_le_self _ _)
+
+theorem to_cont_mult (f : List Rat → Rat) (c : Cont) (k : Nat) (m : Method) (hdt : 0 < c.dt) (hk : 0 < k)
+    (hn : 2 * k ≤ c.data.length) (hnm : c.data.length % k = 0) :
+    downTo f (.cont c) ((k : Int) * c.dt) (some m) (some true) =
+      .ok ((List.range (c.data.length / k - 1)).map fun (i : Nat) =>
+        (c.start + (i : Int) * ((k : Int) * c.dt) + (((k : Int) - 1) * c.dt) / 2,
+          f ((c.data.drop (i * k)).take k))) := by
+  have hkd : 0 < (k : Int) * c.dt := Int.mul_pos (by omega) hdt
+  obtain ⟨hq, hr⟩ := cont_span_div c k hdt
+  have h2 : 2 ≤ c.data.length / k := (Nat.le_div_iff_mul_le hk).mpr hn
+  rw [to_is_over' f (.cont c) _ _ c.start c.stop m _ (targetStep_cont c.dt k m hdt hk) (by omega) rfl rfl,
+    pairs_arange_mult _ _ _ hkd (hr.mpr hnm), fullWindows, hq, blockWins_dropLast]
+  refine over_blocks f c k _ hdt hk (by omega) ?_
+  have := Nat.div_mul_le_self c.data.length k
+  have : (c.data.length / k - 1) * k ≤ c.data.length / k * k := Nat.mul_le_mul_right k (by omega)
+  omega
+
+theorem to_cont_short (f : List Rat → Rat) (c : Cont) (k : Nat) (m : Method) (wh : Option Bool) (hdt : 0 < c.dt)
+    (hk : 0 < k) (hn : c.data.length ≤ k) :
+    downTo f (.cont c) ((k : Int) * c.dt) (some m) wh = .error .value := by
+  have hkd : 0 < (k : Int) * c.dt := Int.mul_pos (by omega) hdt
+  obtain ⟨hq, hr⟩ := cont_span_div c k hdt
+  rw [to_is_over' f (.cont c) _ _ c.start c.stop m _ (targetStep_cont c.dt k m hdt hk) (by omega) rfl rfl]
+  have hempty : pairs (arange c.start c.stop ((k : Int) * c.dt)) = [] := by
+    by_cases h : c.data.length % k = 0
+    · rw [pairs_arange_mult _ _ _ hkd (hr.mpr h), fullWindows, hq, blockWins_dropLast]
+      have : c.data.length / k - 1 = 0 := by
+        rcases Nat.lt_or_eq_of_le hn with h1 | h1
+        · rw [Nat.div_eq_of_lt h1]
+        · rw [h1, Nat.div_self hk]
+      rw [this]; rfl
+    · rw [pairs_arange_nonmult _ _ _ hkd (fun h' => h (hr.mp h')), fullWindows, hq]
+      have : c.data.length / k = 0 := by
+        rcases Nat.lt_or_eq_of_le hn with h1 | h1
+        · exact Nat.div_eq_of_lt h1
+        · rw [h1, Nat.mod_self] at h; exact absurd rfl h
+      rw [this]; rfl
+  rw [hempty]; rfl
+end Verif.C04
